@@ -717,6 +717,14 @@ def step (line : String) : String :=
       (match decFm f with
        | some f => encExcept encSet (CTLS.modelcheck (decKripke g l) f)
        | none => "bad-formula")
+  | ["CTLSM", g, l, f] =>
+      -- CTL* checker whose FINAL CTL call uses the memo table keyed by printed formula (as the code does): follows the
+      -- code on formulas whose subformulas print alike (operand-free Or()/And(), atoms named like formulas)
+      (match decFm f with
+       | some f =>
+         let r := CTLS.removeState (decKripke g l) f
+         if r.2.isCTLState then "OK " ++ encSet (CTL.modelcheckM r.1 r.2) else "ERR TypeError"
+       | none => "bad-formula")
   | ["CTLSNAMES", g, l, f] =>
       (match decFm f with
        | some f => toString (CTLS.namesOK (decKripke g l) f)
